@@ -34,6 +34,9 @@ open Ezpz
 #check @model_newtonLoop_C02                        -- ... for the loop's result (step-size return included)
 #check @kindC1_pointArcCoincident                  -- PointArcCoincident in the Fréchet bridge (StrictPAC)
 #check @kindC1_of_regular3                          -- ALL 23 kinds: Jacobian rows are Fréchet derivatives, continuous (RegularAt3)
+#check @isOpen_regularAt3                           -- regularity is an open condition (all 23 kinds)
+#check @contDiffAt_one_rOf                          -- ... so the assembled residual map is C¹ at every regular point
+#check @fderiv_rOf_eventually                       -- ... and the model's Jacobian is its derivative in a neighbourhood
 #check @pacB_not_kindC1                             -- ... and with a distance exactly EPSILON the row is not continuous
 #check @model_solve_C02_single_level_3              -- C02 at the public entry point, every kind
 #check @model_solve_C02_single_level                -- ... at the public entry point, one priority level
@@ -174,5 +177,8 @@ open Ezpz
 #check @extra_rounds_close
 #check @solveWithPriority_unionMany_unequal_partial  -- ... k groups, public entry point, no relation between the round counts
 #check @freeRun_unionMany
+#check @solveWithPriority_unionMany_unequal_verdicts_partial   -- ... same verdicts => the union's unsatisfied list is the solo lists, by position
+#check @solveWithPriority_unionMany_unequal_positions_partial  -- ... per variable
+#check @UnequalEntryEx.unequal_entry_run                        -- a run with solo counts 0 and 1
 #check @solveWithPriority_unionMany_any_order_exact -- any interleaving and numbering
 #check @step_test_is_global                        -- the one global effect (F17)
